@@ -44,6 +44,8 @@ def run(ctx):
                      'and starts where the peeked space ends; where pre/post space is cut at an '
                      'index, the matching position is recomputed with the same index', 12)
     ctx.rule('R11f', 'longest specials match (strictly-longer test, no early exit)', 1)
+    ctx.rule('R11h', 'a token never ends past the end of the input: on a path that has established E >= len(s) '
+                     '(E > len(s)) no token is built with pos_end > E (pos_end >= E)', 1)
     ctx.rule('R11g', 'end of stream raises LatexWalkerEndOfStream carrying the trailing space', 1)
 
     # ------------------------------------------------------------ R11a
@@ -300,6 +302,39 @@ def _coherent(space_sub, x_sub, rs):
     return 'position - %s is %s but the space has length %s' % (unparse(P), affine.show(lhs), affine.show((c, t)))
 
 
+def _text_meets_post_space(b, post_space, pos_end, rs):
+    """None if pos_end - b == len(post_space) (the token text s[a:b] ends where the post space
+    starts); a reason otherwise; '?' when not comparable"""
+    try:
+        base = [n.id for n in ast.walk(post_space) if isinstance(n, ast.Name) and n.id in rs]
+        psub = {}
+        lhs_b = b
+        pe = pos_end
+        c, t = affine.norm_len(post_space, {})
+        if base:
+            S = base[0]
+            P, E, psym = rs[S]
+            if psym:
+                pe = symex.subst(pe, {psym: P})
+                lhs_b = symex.subst(lhs_b, {psym: P})
+            k = 'len(%s)' % S
+            if k in t:
+                coef = t.pop(k)
+                ce, te = affine.diff(ast.Name(id=E, ctx=ast.Load()), P, {})
+                c += coef * ce
+                for kk, vv in te.items():
+                    t[kk] = t.get(kk, 0) + coef * vv
+        t = dict((kk, vv) for kk, vv in t.items() if vv)
+        lhs = affine.diff(pe, lhs_b, {})
+    except affine.NotAffine:
+        return '?'
+    if lhs == (c, t):
+        return None
+    return ('the token text ends at %s but the token ends at %s and carries a post space of length %s: '
+            'the characters in between belong to no field of the token'
+            % (short(b, 40), short(pos_end, 40), affine.show((c, t))))
+
+
 def _space_coherence(ctx, m, meths):
     """every token (and every call handing pos/pre_space on to a reader method) keeps the
     invariant  pos - start_of_space == len(pre_space)  and  pos_end - start_of_post_space ==
@@ -370,6 +405,7 @@ def _space_coherence(ctx, m, meths):
             ctx.unknown('R11e', m, f, str(e), construct='%s: space coherence' % fname)
             continue
         seen = {}
+        over_end = []
         for cs in cases:
             args = _call_args_by_name(cs.sub, meths)
             rs = _reader_symbols(cs.env, readers)
@@ -391,6 +427,61 @@ def _space_coherence(ctx, m, meths):
                             continue
                         verdict = '?'
                 seen.setdefault(cons, []).append((verdict, cs))
+            # the token text is a source slice s[a:b] and there is a post_space: the text ends
+            # where the post space starts, i.e. pos_end - b == len(post_space)
+            targ, tps, tpe = args.get('arg'), args.get('post_space'), args.get('pos_end')
+            if isinstance(targ, ast.Subscript) and isinstance(targ.slice, ast.Slice) and \
+                    targ.slice.upper is not None and tps is not None and tpe is not None:
+                cons = '%s: text end of %s(%s)' % (fname, call_name(cs.node), short(args.get('tok'), 25))
+                verdict = _text_meets_post_space(targ.slice.upper, tps, tpe, rs)
+                seen.setdefault(cons, []).append((verdict, cs))
+            # R11h: a token built on a path that has established `E >= len(s)` must end at or
+            # before E (resp. before E for `E > len(s)`): otherwise its end lies past the input
+            tpe2 = args.get('pos_end')
+            if tpe2 is not None and call_name(cs.node) in ('make_token', 'LatexToken'):
+                for t_, pol in cs.conds:
+                    for a_, ap in symex._atoms(t_, pol):
+                        if not (isinstance(a_, ast.Compare) and len(a_.ops) == 1):
+                            continue
+                        l_, r_, op_ = a_.left, a_.comparators[0], a_.ops[0]
+                        islen = lambda z: unparse(z).replace(' ', '') in ('len(s)', 'len_s', 'len(self.s)')
+                        if islen(r_) and isinstance(op_, (ast.Gt, ast.GtE)):
+                            E, strict = l_, isinstance(op_, ast.Gt)
+                        elif islen(l_) and isinstance(op_, (ast.Lt, ast.LtE)):
+                            E, strict = r_, isinstance(op_, ast.Lt)
+                        else:
+                            continue
+                        if not ap:
+                            continue
+                        try:
+                            d_ = affine.diff(tpe2, E, {})
+                        except affine.NotAffine:
+                            continue
+                        if d_[1]:
+                            continue
+                        past = d_[0] >= 0 if strict else d_[0] >= 1
+                        if past:
+                            over_end.append((cs, unparse(a_), short(tpe2)))
+            # every token of a method that was handed the leading whitespace carries it
+            if 'pre_space' in fparams and call_name(cs.node) in ('make_token', 'LatexToken') and \
+                    args.get('pre_space') is None:
+                star = [k.value for k in cs.sub.keywords if k.arg is None]
+                has = False
+                for sx in star:
+                    d_ = symex.resolve(sx, cs.env)
+                    if isinstance(d_, ast.Call) and call_name(d_) == 'dict':
+                        has = has or any(k.arg == 'pre_space' for k in d_.keywords)
+                    elif isinstance(d_, ast.Dict):
+                        has = has or any(isinstance(k, ast.Constant) and k.value == 'pre_space' for k in d_.keys)
+                cons = '%s: pre_space of %s(%s)' % (fname, call_name(cs.node), short(args.get('tok'), 25))
+                seen.setdefault(cons, []).append((
+                    None if has else 'the token is built without the pre_space this method was given, although '
+                    'its pos lies after that whitespace', cs))
+        for cs_, fact_, pe_ in over_end[:1]:
+            ctx.refuted('R11h', m, cs_.node, 'a token ending at %s is built on a path that has established %s: '
+                        'the token ends past the end of the input, so the node that contains it covers '
+                        'characters that do not exist' % (pe_, fact_),
+                        construct='%s: token end past the input' % fname)
         for cons, lst in sorted(seen.items()):
             bad = [(v, cs) for v, cs in lst if v not in (None, '?')]
             unk = [(v, cs) for v, cs in lst if v == '?']
@@ -410,6 +501,8 @@ def _space_coherence(ctx, m, meths):
             else:
                 ctx.holds('R11e', m, node, 'position - start of space == len(space) on %d structural '
                                            'path(s)' % len(lst), construct=cons)
+    ctx.holds('R11h', m, None, 'no token is built with an end that a dominating comparison with len(s) places '
+              'past the input', construct='token end scan', trivial=True)
     if n_pre < 8 or n_post < 2:
         raise AnalysisError('space coherence: only %d pre_space / %d post_space sites found' % (n_pre, n_post))
 
